@@ -831,6 +831,7 @@ class Ctx:
         self.pc = []
         self.assumptions = []
         self.facts = {}
+        self._keepalive = []
         self.apps = {}
         self.obls = []
         self.events = []
@@ -905,6 +906,8 @@ class Ctx:
     def fact(self, key, e, level, subject):
         k = (key[0], key[1].get_id())
         if k not in self.facts:
+            # keep the key term alive: z3 recycles the ids of freed terms
+            self._keepalive.append(key[1])
             self.facts[k] = (e, level, subject)
             if level == "sign" and self.solver is not None:
                 self.solver.add(e)
